@@ -70,7 +70,7 @@ def cases(tier, seed):
     n = 170 if tier == "quick" else 18000
     for spec in workload.standard_cases(tier, seed, n, n, opts_fn=opts, frag_share=0.35,
                                         p={"icode_prob": 0.2, "variant_prob": 0.15, "na_prob": 0.15, "waters": [0, 2, 5, 8],
-                                           "damage_prob": 0.3, "gap_prob": 0.25, "dense_prob": 0.8, "crowd_prob": 0.3,
+                                           "damage_prob": 0.3, "gap_prob": 0.25, "bb_damage_prob": 0.04, "dense_prob": 0.8, "crowd_prob": 0.3,
                                            "hydrogens": ["none", "none", "some", "side"]}):
         spec["kind"] = "run"
         out.append(spec)
@@ -113,12 +113,23 @@ def check_endstate(res, spec, m, r, opts):
         pos = "I" if tr.get("cyclic") else tr["pos"]
         wit0 = {"ff": spec["ff"], "opts": spec["opts"], "seed": spec["seed"], "w": spec["w"],
                 "residue": f"{tr['resn']} {tr['chain']} {tr['resi']}", "position": pos}
+        k0 = tord[id(tr)]
+        # backbone atoms that were missing from the input here / in the chain neighbours (their rebuilt positions are
+        # anchors for this residue's amide hydrogen and carbonyl oxygen)
+        wit0["backbone_rebuilt"] = {"here": tr.get("bb_removed"), "gap_after": bool(tr.get("gap_after")),
+                                    "gap_before": bool(tr.get("gap_before")),
+                                    "prev": m["truth"][k0 - 1].get("bb_removed") if k0 > 0 else None,
+                                    "next": m["truth"][k0 + 1].get("bb_removed") if k0 + 1 < len(m["truth"]) else None}
         P = {a.name: np.array([a.x, a.y, a.z]) for a in residue.atoms}
         # coincidence
         al = list(P.items())
         for i in range(len(al)):
             for j in range(i):
-                if np.linalg.norm(al[i][1] - al[j][1]) < 0.4:
+                # "coincide" = the same place (two atoms built on one template point, an atom put on top of an existing
+                # one).  A close clash that debumping could not resolve on a crowded input (it warns "Unable to debump")
+                # is not coincidence: 0.1 A separates the two (a 0.38 A HD22..H contact was seen on the unchanged tree
+                # after a failed debump plus a flip and would have been a false alarm under a 0.4 A bound).
+                if np.linalg.norm(al[i][1] - al[j][1]) < 0.1:
                     res.violate("endstate/atoms-coincide", f"{al[i][0]} and {al[j][0]} of {tr['resn']} {tr['resi']} are "
                                 f"{np.linalg.norm(al[i][1] - al[j][1]):.3f} A apart", **wit0)
         if id(residue) in ambiguous:
@@ -273,6 +284,40 @@ def check_endstate(res, spec, m, r, opts):
                     break
 
 
+def rekey_backbone_repair(res, m):
+    """Mechanism key for the listed finding: heavy-atom repair rebuilds a missing backbone N (or a missing C whose O
+    is missing too) from anchors that include the neighbouring residue's C / N at *template* backbone torsions, so
+    the anchor set is not one rigid frame and the rebuilt atom - and the hydrogens later built on it - are off.
+    The key applies only to end-state violations of a residue whose own N, or C together with O, was absent from the
+    input (or whose chain neighbour's was, for the atoms that take the neighbour's rebuilt atom as an anchor)."""
+    for v in res.violations:
+        if not v["mech"].startswith("endstate/"):
+            continue
+        br = v["witness"].get("backbone_rebuilt") or {}
+        here = br.get("here") or []
+        kind = None
+        if ("C" in here and br.get("gap_after")) or ("N" in here and br.get("gap_before")):
+            v["witness"]["original_mech"] = v["mech"]
+            v["mech"] = "repair/neighbour-linked-across-gap-when-own-backbone-atom-missing"
+            continue
+        if "N" in here:
+            kind = "N"
+        elif "C" in here and "O" in here:
+            kind = "C+O"
+        elif "C" in here and v["witness"].get("position") in ("C", "NC"):
+            kind = "C-at-chain-end"
+        else:
+            atom = v["witness"].get("atom")
+            prev, nxt = br.get("prev") or [], br.get("next") or []
+            if atom in ("H", "H2", "H3") and ("C" in prev and "O" in prev):
+                kind = "C+O-of-previous-residue"
+            elif atom in ("O", "OXT") and "N" in nxt:
+                kind = "N-of-next-residue"
+        if kind:
+            v["witness"]["original_mech"] = v["mech"]
+            v["mech"] = f"repair/backbone-atom-rebuilt-from-anchors-at-template-torsions/{kind}"
+
+
 def atom_class(tr, n, pos):
     if tr["kind"] != "aa":
         return tr["kind"]
@@ -317,6 +362,14 @@ def run_case(spec):
             key = f"invivo/{e['mech']}"
         else:
             key = f"invivo/{e['mech']}"
+            if e["mech"] == "anchor-across-backbone-gap":
+                # listed mechanism: update_bonds links the neighbour without a distance test when this residue's own
+                # C (or N) is absent, so the repair of that atom takes an anchor from across a gap
+                own = [t for t in m["truth"] if t["kind"] == "aa" and
+                       f"{t['chain']} {t['resi']}{t['icode']}".strip() in e.get("residue", "") and t.get("bb_removed")]
+                if own and (("C" in own[0]["bb_removed"] and "N+1" in e["detail"]) or
+                            ("N" in own[0]["bb_removed"] and "C-1" in e["detail"])):
+                    key = "repair/neighbour-linked-across-gap-when-own-backbone-atom-missing"
         if key in seen:
             continue
         seen.add(key)
@@ -328,6 +381,7 @@ def run_case(spec):
     res.count("runs_ok")
     opts = states.Opts(spec["opts"])
     check_endstate(res, spec, m, r, opts)
+    rekey_backbone_repair(res, m)
     res.sample = {"ff": spec["ff"], "opts": spec["opts"], "w": spec["w"], "fits": counts["find_coordinates"],
                   "created": counts["create_atom"], "torsion_calls": counts["set_dihedral"]}
     return res
